@@ -16,7 +16,8 @@ Inductive lex :=
 | XResult (ok err : lex)
 | XArray (t : lex) (len : N)
 | XCustom (schema name : str) (args : list lex)  (* custom / custom_generic *)
-| XService (schema name : str).
+| XService (schema name : str)
+| XRaw (u : uuid).                               (* LexicalId(uuid): the tuple field is public *)
 
 Definition prim_lex (p : prim) : uuid :=
   match p with
@@ -79,6 +80,7 @@ Fixpoint lex_uuid (t : lex) : uuid :=
   | XArray x n => H LEX_NAMESPACE_ARRAY (lex_uuid x ++ to_le 4 n)
   | XCustom s n args => H LEX_NAMESPACE_CUSTOM (fq_name s n (map lex_uuid args))
   | XService s n => H LEX_NAMESPACE_SERVICE (fq_name s n [])
+  | XRaw u => u
   end.
 
 (* BuiltInTypeIr::lexical_id, StructIr::lexical_id, ... : the lexical id a layout claims *)
